@@ -46,7 +46,7 @@ CHECKS["C10"] = dict(
 CHECKS["C15"] = dict(
     category="fault_enumeration",
     technique="deterministic simulation with fault injection: expected-log model vs decoded exports; simulated disk with create/ENOSPC-at-every-offset/short-write/EINTR/flush faults; /dev/full; configuration export of generated trees and all templates; thorough tier adds seeded search over Miri-scheduled thread interleavings of the real rayon pool (thread world, experiment scenario)",
-    text="Log content: generated configurations with loggers and rule sets, fault-free or with one injected failure, rules that share an entry name over different sources (first fired rule wins); the reference interpreter's expected log must equal the decoded JSON and CBOR exports. Export path: for each exported artefact (json, cbor, ron) the device-full fault is enumerated over every byte offset of the fault-free output, plus create, flush, short-write and EINTR faults on a simulated disk behind the cfg(mahf_verif) I/O seam: Ok(()) implies the bytes on disk decode to the expected content, transient faults must not fail the export; the same against the kernel's /dev/full without a hook. Configuration export: generated trees and all shipped templates serialise, show the pre-order sequence of components and parameters, equal their clone's, differ from a mutated configuration's (a changed subtree, or the same operands under the other Boolean combinator; evaluation steps under different identifiers); exporting over an existing longer file leaves exactly the new content. par_experiment's file set under simulated schedules and I/O faults. Thorough tier only: the thread world - the same parallel paths on the REAL rayon under Miri's seeded scheduler (preemption at basic-block ends, data-race detection on; scenarios binary_ga with the parallel evaluator, ant_system with a large colony: 4 workloads x 16 Miri seeds; par_experiment with file export: 2 x 8), replayable by Miri seed.",
+    text="Log content: generated configurations with loggers and rule sets, fault-free or with one injected failure, rules that share an entry name over different sources (first fired rule wins); the reference interpreter's expected log must equal the decoded JSON and CBOR exports. Export path: for each exported artefact (json, cbor, ron) the device-full fault is enumerated over every byte offset of the fault-free output, plus create, flush, short-write and EINTR faults on a simulated disk behind the cfg(mahf_verif) I/O seam: Ok(()) implies the bytes on disk decode to the expected content, transient faults must not fail the export; the same against the kernel's /dev/full without a hook. Configuration export: generated trees and all shipped templates serialise, show the pre-order sequence of components and parameters, equal their clone's, differ from a mutated configuration's (a changed subtree, or the same operands under the other Boolean combinator; evaluation steps under different identifiers); exporting over an existing longer file leaves exactly the new content. par_experiment's file set under simulated schedules and I/O faults. Thorough tier only: the thread world - the same parallel paths on the REAL rayon under Miri's seeded scheduler (preemption at basic-block ends, data-race detection on; scenarios binary_ga with the parallel evaluator and ant_system with a large colony: 4 workloads x 32 Miri seeds; repeated direct Parallel::evaluate calls: 2 x 32; par_experiment with file export: 2 x 16), replayable by Miri seed.",
     note="Sampling over logs/configurations; exhaustive over single ENOSPC offsets per artefact. The disk under faults is an in-memory stub; serde_json, ciborium, ron and std::fs are real. After an export returned Err nothing is claimed about the file.",
     design_ref="5/C15",
 )
@@ -57,14 +57,14 @@ _TW_NOTE = "Trusts the harness problems' pure reference objective and the cfg(ma
 CHECKS["C05"] = dict(
     category="exploration",
     technique="deterministic simulation: every shipped template stepped under a seeded generator, audit of every memory after every component execution; parallel evaluator on a simulated worker pool under seeded schedules; thorough tier adds seeded search over Miri-scheduled thread interleavings of the real rayon pool (thread world)",
-    text="Seeded search over all 21 shipped templates (plus two archive assemblies) with swarm-style valid parameters, instances with and without penalty regions (+inf), sequential evaluator; after EVERY child execution of every sequential block at every nesting level every evaluated individual in the population stack, best-so-far, elitist archive, personal/global bests and molecule memories must carry exactly F(solution). A second batch repeats the audit while the objectives are written by the simulated workers of evaluate::Parallel under seeded schedules. The individual-level clause is checked by seeded histories of Individual operations (construction, evaluation, every mutable access, clone / clone_from through Vec, slice and Option, population helpers) against an (solution, Option<objective>) model; assemblies of de::de / ga::ga run the shipped operators no template wires in by default; an assembly evaluates prepared populations (empty, runs of equal neighbours, evaluated next to unevaluated); a user-defined modify-then-validate mutation on the public mutation() driver fails in the middle of an individual and the state the caller is left with after the failed run is audited; individual histories evaluate with a changing objective; the four shipped boundary repairs run on prepared evaluated populations with coordinates on, one ulp beside and far outside the bounds. Thorough tier only: the thread world - the same parallel paths on the REAL rayon under Miri's seeded scheduler (preemption at basic-block ends, data-race detection on; scenarios binary_ga with the parallel evaluator, ant_system with a large colony: 4 workloads x 16 Miri seeds; par_experiment with file export: 2 x 8), replayable by Miri seed." + _TW_FAULTS,
+    text="Seeded search over all 21 shipped templates (plus two archive assemblies) with swarm-style valid parameters, instances with and without penalty regions (+inf), sequential evaluator; after EVERY child execution of every sequential block at every nesting level every evaluated individual in the population stack, best-so-far, elitist archive, personal/global bests and molecule memories must carry exactly F(solution). A second batch repeats the audit while the objectives are written by the simulated workers of evaluate::Parallel under seeded schedules. The individual-level clause is checked by seeded histories of Individual operations (construction, evaluation, every mutable access, clone / clone_from through Vec, slice and Option, population helpers) against an (solution, Option<objective>) model; assemblies of de::de / ga::ga run the shipped operators no template wires in by default; an assembly evaluates prepared populations (empty, runs of equal neighbours, evaluated next to unevaluated); a user-defined modify-then-validate mutation on the public mutation() driver fails in the middle of an individual and the state the caller is left with after the failed run is audited; individual histories evaluate with a changing objective; the four shipped boundary repairs run on prepared evaluated populations with coordinates on, one ulp beside and far outside the bounds. Thorough tier only: the thread world - the same parallel paths on the REAL rayon under Miri's seeded scheduler (preemption at basic-block ends, data-race detection on; scenarios binary_ga with the parallel evaluator and ant_system with a large colony: 4 workloads x 32 Miri seeds; repeated direct Parallel::evaluate calls: 2 x 32; par_experiment with file export: 2 x 16), replayable by Miri seed." + _TW_FAULTS,
     note=_TW_NOTE,
     design_ref="5/C05",
 )
 CHECKS["C06"] = dict(
     category="exploration",
     technique="deterministic simulation: call-logging objective vs counter at every evaluation step; missing/wrong evaluator identifier as injected fault; simulated worker pool schedules for the parallel evaluator; thorough tier adds seeded search over Miri-scheduled thread interleavings of the real rayon pool (thread world)",
-    text="At every PopulationEvaluator step of every template run: one objective call per individual of the pre-step population (multiset equality), order and solutions unchanged, all evaluated, counter advanced by the population size (0 for empty population or empty stack); at every step of any component: counter delta == objective calls; at run end: reported evaluations == objective calls and the evaluation budget is overshot by less than the last pass. Faults: evaluator not registered / registered under another identifier => Err, zero objective calls, zero executed steps (template batch and a dedicated identifier batch over Global/A/B). The parallel evaluator runs on 1..8 simulated workers under seeded random, sticky and PCT schedules with the same monitors; a panic inside the pool that the sequential run does not have is a violation. Evaluation steps also run on prepared populations (empty, duplicates, evaluated next to unevaluated) and after a scope whose init hook registered a surrogate evaluator (the caller's evaluator must be back in force; a run that loses a registered evaluator on the way is reported), and in a second loop that follows the first in the same scope (one run, one counter). Thorough tier only: the thread world - the same parallel paths on the REAL rayon under Miri's seeded scheduler (preemption at basic-block ends, data-race detection on; scenarios binary_ga with the parallel evaluator, ant_system with a large colony: 4 workloads x 16 Miri seeds; par_experiment with file export: 2 x 8), replayable by Miri seed." + _TW_FAULTS,
+    text="At every PopulationEvaluator step of every template run: one objective call per individual of the pre-step population (multiset equality), order and solutions unchanged, all evaluated, counter advanced by the population size (0 for empty population or empty stack); at every step of any component: counter delta == objective calls; at run end: reported evaluations == objective calls and the evaluation budget is overshot by less than the last pass. Faults: evaluator not registered / registered under another identifier => Err, zero objective calls, zero executed steps (template batch and a dedicated identifier batch over Global/A/B). The parallel evaluator runs on 1..8 simulated workers under seeded random, sticky and PCT schedules with the same monitors; a panic inside the pool that the sequential run does not have is a violation. Evaluation steps also run on prepared populations (empty, duplicates, evaluated next to unevaluated) and after a scope whose init hook registered a surrogate evaluator (the caller's evaluator must be back in force; a run that loses a registered evaluator on the way is reported), and in a second loop that follows the first in the same scope (one run, one counter). Thorough tier only: the thread world - the same parallel paths on the REAL rayon under Miri's seeded scheduler (preemption at basic-block ends, data-race detection on; scenarios binary_ga with the parallel evaluator and ant_system with a large colony: 4 workloads x 32 Miri seeds; repeated direct Parallel::evaluate calls: 2 x 32; par_experiment with file export: 2 x 16), replayable by Miri seed." + _TW_FAULTS,
     note=_TW_NOTE + " rayon's scheduler is replaced by the simulated pool; interleavings at objective-call and queue granularity.",
     design_ref="5/C06",
 )
@@ -78,14 +78,14 @@ CHECKS["C07"] = dict(
 CHECKS["C08"] = dict(
     category="exploration",
     technique="deterministic simulation: rayon replaced by a shuttle-scheduled simulated worker pool; seeded random/sticky/PCT schedules; digest comparison sequential vs parallel vs clone; par_experiment under schedules; thorough tier adds seeded search over Miri-scheduled thread interleavings of the real rayon pool (thread world)",
-    text="Same workload run with the sequential evaluator, through a cloned configuration, and with evaluate::Parallel on 1/2/3/4/8 simulated workers under several seeded schedules each (hand-out order of individuals is part of the schedule): the digest (population stack bits, best, counters, decoded log, next word of the generator) must be identical. Generators: children are a function of the seed, different seeds differ, children keep the backend, optimize_with keeps a supplied non-default generator and is repeatable. par_experiment (<= 6 runs x <= 3 problems) on the simulated pool: every (run, problem) digest and every decoded log file equals the run executed alone with Random::new(run) (or with the generator the setup function supplies); file set exact. Problems of one experiment have different domains; 3 % of the sequential-vs-parallel cases are large initialisations (>= 2^14 elements), 6 % run a search with the four shipped diversity measures over populations of 1..80 (their states are part of the digest); seeds include 0..3 compared with their neighbours; the supplied generator arrives by insert, insert-if-absent or the entry API. History independence: a shipped template run on a fresh OS thread and the same run right after a run on a same-named, same-sized sibling instance on the harness thread end in the same digest. Thorough tier only: the thread world - the same parallel paths on the REAL rayon under Miri's seeded scheduler (preemption at basic-block ends, data-race detection on; scenarios binary_ga with the parallel evaluator, ant_system with a large colony: 4 workloads x 16 Miri seeds; par_experiment with file export: 2 x 8), replayable by Miri seed.",
+    text="Same workload run with the sequential evaluator, through a cloned configuration, and with evaluate::Parallel on 1/2/3/4/8 simulated workers under several seeded schedules each (hand-out order of individuals is part of the schedule): the digest (population stack bits, best, counters, decoded log, next word of the generator) must be identical. Generators: children are a function of the seed, different seeds differ, children keep the backend, optimize_with keeps a supplied non-default generator and is repeatable. par_experiment (<= 6 runs x <= 3 problems) on the simulated pool: every (run, problem) digest and every decoded log file equals the run executed alone with Random::new(run) (or with the generator the setup function supplies); file set exact. Problems of one experiment have different domains; 3 % of the sequential-vs-parallel cases are large initialisations (>= 2^14 elements), 6 % run a search with the four shipped diversity measures over populations of 1..80 (their states are part of the digest); seeds include 0..3 compared with their neighbours; the supplied generator arrives by insert, insert-if-absent or the entry API. History independence: a shipped template run on a fresh OS thread and the same run right after a run on a same-named, same-sized sibling instance on the harness thread end in the same digest. Thorough tier only: the thread world - the same parallel paths on the REAL rayon under Miri's seeded scheduler (preemption at basic-block ends, data-race detection on; scenarios binary_ga with the parallel evaluator and ant_system with a large colony: 4 workloads x 32 Miri seeds; repeated direct Parallel::evaluate calls: 2 x 32; par_experiment with file export: 2 x 16), replayable by Miri seed.",
     note="rayon's work-stealing scheduler and indicatif are stubs (shims/); a bug inside rayon is out of reach, a mahf change that makes results depend on which worker runs what, in what order, or how runs overlap is in reach. Interleavings are decided by a seeded scheduler at objective-call, queue and I/O granularity; a schedule is replayed from its seed and identified by the hash of the recorded task sequence.",
     design_ref="5/C08",
 )
 CHECKS["C16"] = dict(
     category="exploration",
-    technique="deterministic simulation: all 21 templates x swarm-style valid parameters x seeds run to completion under a seeded generator with extreme-draw buggify; loop hook checks stack balance per pass",
-    text="Every shipped template constructor with parameters drawn from its documented valid ranges including boundary values (population 1-2, tournament = population, probabilities 0/1, y in {1,2}, tiny v_max, distance ratios up to 1e12), n in 0..120 iterations (quick: 0..40 plus the bounds 49, 98, 103, 107 for which n*(1/n) != 1), no failing fault: the run returns Ok without panic, the iteration counter equals n with n+1 condition tests, the population stack has the same height at the end of every pass of every loop as at its beginning, one population at the end, population size after each pass within the template's prescription. A second batch forces one word of the random stream to 0 or u64::MAX (rare legal draws); a third runs the templates with evaluate::Parallel on the simulated worker pool under seeded schedules (run-end and per-pass monitors, and panics the sequential run does not have)." + _TW_FAULTS,
+    technique="deterministic simulation: all 21 templates x swarm-style valid parameters x seeds run to completion under a seeded generator with extreme-draw buggify; loop hook checks stack balance per pass; thorough tier adds seeded search over Miri-scheduled thread interleavings of the real rayon pool (thread world)",
+    text="Every shipped template constructor with parameters drawn from its documented valid ranges including boundary values (population 1-2, tournament = population, probabilities 0/1, y in {1,2}, tiny v_max, distance ratios up to 1e12), n in 0..120 iterations (quick: 0..40 plus the bounds 49, 98, 103, 107 for which n*(1/n) != 1), no failing fault: the run returns Ok without panic, the iteration counter equals n with n+1 condition tests, the population stack has the same height at the end of every pass of every loop as at its beginning, one population at the end, population size after each pass within the template's prescription. A second batch forces one word of the random stream to 0 or u64::MAX (rare legal draws); a third runs the templates with evaluate::Parallel on the simulated worker pool under seeded schedules (run-end and per-pass monitors, and panics the sequential run does not have). Thorough tier only: the thread world - the same parallel paths on the REAL rayon under Miri's seeded scheduler (preemption at basic-block ends, data-race detection on; scenarios binary_ga with the parallel evaluator and ant_system with a large colony: 4 workloads x 32 Miri seeds; repeated direct Parallel::evaluate calls: 2 x 32; par_experiment with file export: 2 x 16), replayable by Miri seed." + _TW_FAULTS,
     note=_TW_NOTE,
     design_ref="5/C16",
 )
@@ -99,7 +99,7 @@ CHECKS["C18"] = dict(
 CHECKS["C19"] = dict(
     category="exploration",
     technique="deterministic simulation: tour/pheromone monitors after every generation and update along seeded ACO runs (reachable pheromone states), extreme-draw buggify; thorough tier adds seeded search over Miri-scheduled thread interleavings of the real rayon pool (thread world)",
-    text="Both ACO templates over 2..8 cities, distance ratios up to 1e12, 0..8 ants, alpha,beta in [0,5] incl. exactly 0 and 1, rho in [0,1] incl. 0 and 1, initial trails incl. exactly 0, single-city instances, sparse maps with infinite distances, up to 200 iterations so that long-evaporated trails are reached: after generation ants+1 tours, each a permutation of all cities starting at 0, unevaluated; after each update the matrix equals (1-rho)*before + deposits recomputed from the rewarded tours on exactly the consecutive-city edges in both directions (purely relative tolerance 1e-9, tour lengths taken from the instance at hand), symmetric, finite, non-negative, max-min: within bounds. Instances include asymmetric ones and units of length 1e-17..1e17. Thorough tier only: the thread world - the same parallel paths on the REAL rayon under Miri's seeded scheduler (preemption at basic-block ends, data-race detection on; scenarios binary_ga with the parallel evaluator, ant_system with a large colony: 4 workloads x 16 Miri seeds; par_experiment with file export: 2 x 8), replayable by Miri seed." + _TW_FAULTS,
+    text="Both ACO templates over 2..8 cities, distance ratios up to 1e12, 0..8 ants, alpha,beta in [0,5] incl. exactly 0 and 1, rho in [0,1] incl. 0 and 1, initial trails incl. exactly 0, single-city instances, sparse maps with infinite distances, up to 200 iterations so that long-evaporated trails are reached: after generation ants+1 tours, each a permutation of all cities starting at 0, unevaluated; after each update the matrix equals (1-rho)*before + deposits recomputed from the rewarded tours on exactly the consecutive-city edges in both directions (purely relative tolerance 1e-9, tour lengths taken from the instance at hand), symmetric, finite, non-negative, max-min: within bounds. Instances include asymmetric ones and units of length 1e-17..1e17. Thorough tier only: the thread world - the same parallel paths on the REAL rayon under Miri's seeded scheduler (preemption at basic-block ends, data-race detection on; scenarios binary_ga with the parallel evaluator and ant_system with a large colony: 4 workloads x 32 Miri seeds; repeated direct Parallel::evaluate calls: 2 x 32; par_experiment with file export: 2 x 16), replayable by Miri seed." + _TW_FAULTS,
     note=_TW_NOTE,
     design_ref="5/C19",
 )
